@@ -633,6 +633,7 @@ type c06QuicCase struct {
 	datagrams [][]byte
 	oracle    []*c06Sealed
 	class     []string
+	hasClose  bool // a CONNECTION_CLOSE frame was put into some packet
 }
 
 func (g *c06Gen) quicFrames(hs []byte) ([]c06Frame, string) {
@@ -738,6 +739,11 @@ func (g *c06Gen) quicCase(hs []byte, version uint32) *c06QuicCase {
 			p = append(p, c06CryptoFrame(uint64(f.off), f.data, []int{0, 0, 2, 4, 8}[r.Intn(5)], []int{0, 0, 2, 4}[r.Intn(4)])...)
 		}
 		pad()
+		if r.Chance(0.03) { // CONNECTION_CLOSE (transport or application), or a frame type the sniffer does not know
+			p = append(p, []byte{0x1c, 0x1d, 0x02, 0x1e}[r.Intn(4)], 0, 0, 0)
+			qc.hasClose = true
+			qc.class = append(qc.class, "close_or_unknown_frame")
+		}
 		payloads = append(payloads, p)
 	}
 	qc.class = append(qc.class, fmt.Sprintf("packets.%d", len(payloads)))
